@@ -29,6 +29,11 @@
 (*   useT   + 0.25*t in the last equation                                                *)
 (*   tol    0: no Err_Tolerance line (parser default 1e-8) | 4: Err_Tolerance = 1e-4     *)
 (*          | 100: Err_Tolerance = 1.0 | 200: Err_Tolerance = 2.0  (used with cst = 3)    *)
+(*   ps     spelling of a WHOLE right-hand side without any name - the parameter line    *)
+(*          (cst = 2) and every equation i > 1 whose row of A is zero: 0: the plain       *)
+(*          literal (2.0 / 1.0) | 1..12: arithmetic on literals only (4/2, 0.5*4, (2.0),  *)
+(*          - 2.0, 2*0.3, 3/5, 0.04/4, 1e3/500, 2.0 ** 1, -(-2.0), 0x2, 5 - 3); the driver *)
+(*          holds the texts (PARAM_SPELLINGS) and computes the values                     *)
 (*   red    constructor option run_equation_reduction of the generator                   *)
 (*   al     an alias line  INC = <last>  that nothing reads (decorative under reduction) *)
 (*   nm     names of the variables: 0: x, y, z and the parameter c0 = 2.0                *)
@@ -142,7 +147,7 @@ BaseMats == { << << 0, 1 >>, << 2, 0 >> >>,
 OptsOverN(M, MT, Tols, Lags, Nms) ==
     { [n |-> Len(A), A |-> A, lag |-> l, ic |-> c, exo |-> e, cst |-> s, userT |-> u, useT |-> w,
        tol |-> tl, maxTime |-> mt, nm |-> nm, fn |-> IF s = 1 THEN 1 ELSE 0, tw |-> 0, red |-> FALSE,
-       al |-> FALSE] :
+       al |-> FALSE, ps |-> 0] :
       A \in M, l \in Lags, c \in BOOLEAN, e \in 0..2, s \in 0..2, u \in {"none", "endo", "exo"},
       w \in BOOLEAN, tl \in Tols, mt \in MT, nm \in Nms }
 OptsOver(M, MT, Tols) == OptsOverN(M, MT, Tols, 0..2, {0})
@@ -168,7 +173,7 @@ OwnNameProfiles ==
       [lag |-> 0, ic |-> FALSE, exo |-> 0, cst |-> 0, userT |-> "endo", useT |-> FALSE, tol |-> 0, nm |-> 3] }
 ProfilesOf(P, M, MT) ==
     { [n |-> Len(A), A |-> A, maxTime |-> mt] @@ pr
-      @@ [fn |-> IF pr.cst = 1 THEN 1 ELSE 0, tw |-> 0, red |-> FALSE, al |-> FALSE] :
+      @@ [fn |-> IF pr.cst = 1 THEN 1 ELSE 0, tw |-> 0, red |-> FALSE, al |-> FALSE, ps |-> 0] :
       A \in M, pr \in P, mt \in MT }
 (* math functions and constants, builtins: every constant spelling with / without the exogenous list *)
 (* expression that uses math names, injected and user-defined time axis; every time-trend wrapper     *)
@@ -197,6 +202,14 @@ RedMats == Mats1 \cup { << << 0, 1 >>, << 2, 0 >> >>, << << 0, 0 >>, << 2, 0 >> 
 TolProfiles ==
     { [lag |-> l, ic |-> FALSE, exo |-> x, cst |-> 3, userT |-> u, useT |-> w, tol |-> tl, nm |-> 0] :
       l \in {0, 1}, x \in {0, 1}, u \in {"none", "endo"}, w \in BOOLEAN, tl \in {100, 200} }
+(* right-hand sides without a name, in every spelling, read by other equations: the parameter of *)
+(* equation 1 and (second matrix of ParamMats) a variable with a zero row that two others read    *)
+NumParamSpellings == 12
+ParamProfiles ==
+    { [lag |-> l, ic |-> c, exo |-> 1, cst |-> 2, userT |-> u, useT |-> TRUE, tol |-> 0, nm |-> 0,
+       red |-> r, ps |-> q] :
+      l \in {0, 1}, c \in BOOLEAN, u \in {"none", "endo"}, r \in BOOLEAN, q \in 1..NumParamSpellings }
+ParamMats == { << << 0, 1 >>, << 2, 0 >> >>, << << 0, 1, 1 >>, << 0, 0, 0 >>, << 1, 1, 0 >> >> }
 Base2 == { << << 0, 1 >>, << 2, 0 >> >> }
 OwnNameMats == Mats1 \cup Base2 \cup { << << 0, 1, 1 >>, << 1, 0, 1 >>, << 1, 1, 0 >> >> }
 
@@ -219,6 +232,7 @@ BlocksQuick(mt) ==
     \cup { MkBlock(o) : o \in ProfilesOf(MathProfiles, Mats1 \cup Base2, {mt}) }
     \cup { MkBlock(o) : o \in ProfilesOf(RedProfiles, RedMats, {mt}) }
     \cup { MkBlock(o) : o \in ProfilesOf(TolProfiles, Mats1 \cup Base2, {mt}) }
+    \cup { MkBlock(o) : o \in ProfilesOf(ParamProfiles, ParamMats, {mt}) }
 
 (* thorough: every option combination (lags 0-2) on every 1x1 / 2x2 / designed 3x3 matrix, and the  *)
 (* chained lag with the default tolerance; the colliding local names with every option on the 1x1   *)
@@ -235,6 +249,7 @@ BlocksThorough(mt) ==
     \cup { MkBlock(o) : o \in ProfilesOf(MathProfiles, Mats1 \cup BaseMats, {mt, 6}) }
     \cup { MkBlock(o) : o \in ProfilesOf(RedProfiles, Mats1 \cup Mats2 \cup Mats3Few, {mt, 6}) }
     \cup { MkBlock(o) : o \in ProfilesOf(TolProfiles, Mats1 \cup BaseMats, {mt, 6}) }
+    \cup { MkBlock(o) : o \in ProfilesOf(ParamProfiles, Mats1 \cup ParamMats \cup Mats3Few, {mt, 6}) }
 
 (* a handful of blocks for the as-found counterexamples *)
 BlocksTiny(mt) ==
